@@ -128,14 +128,27 @@ def rhTail (s : Streams) (k : Nat) (h : HeadersIn) (isInitial : Bool) : Streams 
       let s := s.modStream k fun st => { st with pendingRecv := st.pendingRecv ++ [.informational status h.fields] }
       (s.modStreamW k Stream.notifyRecv, .ok)
 
+/-- stage 0: the state transition alone -/
+def rhSt (s : Streams) (k : Nat) (st' : State) : Streams := s.modStream k fun st => { st with state := st' }
+
+/-- the receive-stream limit was reached while the (promised) stream was only reserved: REFUSED_STREAM -/
+def rhRefuse (s : Streams) (k : Nat) (st' : State) (isInitial : Bool) : Bool :=
+  isInitial && !((rhSt s k st').stream k).isCounted && !(rhSt s k st').counts.canIncNumRecvStreams
+
 theorem recvRecvHeaders_eq (s : Streams) (k : Nat) (h : HeadersIn) :
     s.recvRecvHeaders k h =
       match (s.stream k).state.recvOpen h.eos h.isInformational with
       | (_, .error e) => (s, .state e)
       | (st', .ok isInitial) =>
+        if rhRefuse s k st' isInitial then
+          (rhSt s k st', .state (PErr.libraryReset ((rhSt s k st').stream k).id REFUSED_STREAM))
+        else
         match rhCl (rhPre s k h st' isInitial) k h with
         | (s, some e) => (s, .state e)
         | (s, none) => rhTail s k h isInitial := rfl
+
+theorem rhSt_quiet (s : Streams) (k : Nat) (st' : State) : Quiet s (rhSt s k st') := by
+  unfold rhSt; quiet
 
 
 theorem cfg_modRecv_lpi (s : Streams) (v : Nat) :
@@ -221,6 +234,8 @@ theorem recvRecvHeaders_delivers (s : Streams) (k : Nat) (h : HeadersIn) :
   split
   · exact ⟨(Quiet.refl s).delivers, fun _ => Quiet.refl s⟩
   · rename_i st' i _
+    split
+    · exact ⟨(rhSt_quiet s k st').delivers, fun _ => rhSt_quiet s k st'⟩
     obtain ⟨q1, c1⟩ := rhPre_quiet s k h st' i
     generalize rhPre s k h st' i = s1 at q1 c1 ⊢
     obtain ⟨q2, c2⟩ := rhCl_quiet s1 k h
